@@ -8,6 +8,11 @@ import random
 ID = "C08"
 PROPS = "Props/C08.v"
 VM_SUBSET = 60
+# history passes of the runner: format()/to_*_string() called without a locale argument legitimately follow the documented process-wide
+# pendulum.set_locale (the helpers are compositions of format tokens); from_format with a weekday token and no date (shape "weekday-only")
+# picks that weekday inside now's week — Formatter._check_parsed: dt.start_of("week").subtract(days=1).next(dow) — and so follows the
+# documented week_starts_at/week_ends_at.  Nothing here may depend on the local timezone: it stays in the ambient pass.
+AMBIENT_DEPENDS = ("locale", "week")
 RULE = ("DateTimes = boundary grid (years 1000/9999, leap days, midnight/noon/12h-24h edges, every microsecond width) x zones (named zones incl. "
         "half-hour/45-minute/negative/sub-minute-LMT offsets, fixed offsets, naive) + seeded random ones. Streams: token-grid (every token the "
         "_TOKENS regex can produce, one separator-joined format per DateTime, locale en), locale-tokens (each localizable token x 27 locales), "
@@ -240,7 +245,8 @@ def cases(tier, seed):
         for _ in range(3):
             out.append(roundtrip_case(rnd, s, now, "full"))
         out.append(roundtrip_case(rnd, s, [rnd.randrange(1000, 9999), rnd.randrange(1, 13), rnd.randrange(1, 29)], rnd.choice(["date", "time", "md", "y", "ym", "dhm", "full12", "fullz", "doy", "yy", "frac", "frac"])))
-    # deterministic witnesses of the listed findings (so that they are re-confirmed on every run)
+    # deterministic witnesses of the listed findings (so that they are re-confirmed on every run; the DDDD witnesses of the repaired
+    # finding rs-ordinal-month-end — Feb 29 and Jan 31, both month ends — must now pass in both backends)
     w = mk_dt("fixed", 19800, 2020, 2, 29, 13, 14, 15, 123456)
     w2 = mk_dt("fixed", -3600, 2021, 1, 31, 1, 2, 3, 4)
     iso_tail = [["lit", " "], ["tok", "HH"], ["lit", ":"], ["tok", "mm"], ["lit", ":"], ["tok", "ss"], ["lit", "."], ["tok", "SSSSSS"], ["lit", " "], ["tok", "Z"]]
@@ -781,6 +787,7 @@ def known(c, backend, r):
             return "from-format-escape-unprotected"
         if loc == "tr" and parts[-1] == ["tok", "dddd"] and _dt.date(*s["f"][:3]).weekday() == 5 and r[0] == 0:
             return "tr-cumartesi-prefix"
+        # finding rs-ordinal-month-end (status fixed: a reproduction is reported as a VIOLATION by the runner)
         if backend == "rs" and any(t in toks for t in ("DDDD", "DDD")) and s["f"][2] == calendar.monthrange(s["f"][0], s["f"][1])[1] \
                 and r[0] == 3 and r[2] == "ParserError":
             return "rs-ordinal-month-end"
@@ -790,7 +797,8 @@ def known(c, backend, r):
 LEVEL_TEXT = ("Machine-checked Coq theorems about an executable model of Formatter.format/parse whose tables are regenerated from /repo on every run: "
               "decimal rendering/parsing round trip, one theorem per numeric token (rendered text = padded decimal of the stdlib quantity, all years), "
               "verbatim escapes, the composition of every named format, and the from_format inverse for the fixed-width full date/time/fraction/offset class "
-              "proved after the matching step; plus a three-way correspondence (implementation in both backends / model / stdlib oracle) over every token, "
+              "proved after the matching step, the day-of-year step (DDDD/DDD through pendulum.parse('YYYY-DDD')) proved equal to the calendar in both parser "
+              "backends (finding rs-ordinal-month-end repaired: from_format is backend-independent in the model); plus a three-way correspondence (implementation in both backends / model / stdlib oracle) over every token, "
               "27 locales, random token sequences and round trips.")
 DESIGN_REF = "DESIGN.md section 4 C08"
 LEVEL_NOTE = ("Trusted: Coq kernel+VM, the generators, the hand-written control flow of the model (fingerprinted + validated by correspondence), the model of CPython's re "
